@@ -809,6 +809,27 @@ Definition execute_state : LM exec_out :=
   | None => ret (XoRaised EAttribute)
   end.
 
+(* step(): a pause or kill requested while the end-of-step transition was under way (by a listener) has been armed as a
+   new interrupt action; the step has yielded, so it is carried out now:
+   `while self._interrupt_action is not None and self._interrupt_action is not action and not self.has_terminated():
+        action = self._interrupt_action; action.run(None)`.  [ran]: the action that was just run (None: the nominal
+   transition was made).  Every round needs a listener that reacts to the previous one: bounded by fuel. *)
+Fixpoint run_armed (fuel : nat) (ran : option nat) : LM unit :=
+  match fuel with
+  | 0 => raise EOutOfFuel
+  | S f =>
+      w <- get ;;
+      if is_terminated w then ret tt
+      else match intr w with
+           | None => ret tt
+           | Some a =>
+               if (match ran with Some b => Nat.eqb a b | None => false end) then ret tt
+               else run_action a None ;;; run_armed f (Some a)
+           end
+  end.
+
+Definition armed_fuel := 8.
+
 (* step(), the part after `await self._run_task(...)` came back: interruption bookkeeping, the interrupt
    action or the nominal transition, and the `finally` *)
 Definition finish_step (x : exec_out) : LM unit :=
@@ -840,8 +861,8 @@ Definition finish_step (x : exec_out) : LM unit :=
      w <- get ;;
      if is_terminated w then ret tt        (* terminated from outside while the step was in flight *)
      else match intr w with
-          | Some a => run_action a next
-          | None => transition next
+          | Some a => run_action a next ;;; run_armed armed_fuel (Some a)
+          | None => transition next ;;; run_armed armed_fuel None
           end)
     (modify (fun w => w <| stepping := false |>) ;;; set_interrupt_action None).
 
